@@ -2,6 +2,7 @@ import Arimaa.Props.C08
 import Arimaa.Lemmas.RsAgreeStep
 import Arimaa.Lemmas.RsAgreeTHash
 import Arimaa.Gen.Bridge.GameState_eq
+import Arimaa.Gen.Bridge.GameState_hash
 import Arimaa.Gen.Bridge.GameState_take_action
 import Arimaa.Gen.Bridge.GameState_transposition_hash
 import Arimaa.Gen.Bridge.Zobrist_from_piece_board
@@ -34,12 +35,39 @@ theorem C08_code_agrees :
     (∀ (b : Board) (p1 : Bool) (step : Nat), Zobrist_from_piece_board b p1 step = Res.guard (zFromPieceBoardPanics b step) (zFromPieceBoard b p1 step)) ∧
     (∀ prev new : Board, piece_board_value prev new = Res.guard (pieceBoardValuePanics prev new) (pieceBoardValue prev new)) ∧
     (∀ s : GameState, GameState_transposition_hash s = Res.guard s.transpositionHashPanics s.transpositionHash) ∧
-    (∀ a b : GameState, GameState_eq a b = (a.hash == b.hash)) :=
+    (∀ a b : GameState, GameState_eq a b = (a.hash == b.hash)) ∧
+    (∀ (s : GameState) (st : List BB), GameState_hash s st = st ++ [s.hash]) :=
   ⟨(by simp only [bridge_GameState_take_action]; exact RsAgree.take_action_eq),
    (by simp only [bridge_Zobrist_from_piece_board]; exact RsAgree.from_piece_board_eq),
    (by simp only [bridge_piece_board_value]; exact RsAgree.piece_board_value_eq),
    (by simp only [bridge_GameState_transposition_hash]; exact RsAgree.transposition_hash_eq),
-   (by simp only [bridge_GameState_eq]; exact RsAgree.game_state_eq)⟩
+   (by simp only [bridge_GameState_eq]; exact RsAgree.game_state_eq),
+   (by simp only [bridge_GameState_hash]; exact RsAgree.game_state_hash)⟩
 
+
+/-- **`Hash` is consistent with `==` in the code as it is now**: two states the regenerated `eq` calls equal feed
+the same word to any hasher (the word both compare: the board-state hash) -/
+theorem C08_code_hash_consistent_with_eq (a b : GameState) (st : List BB) (h : GameState_eq a b = true) :
+    GameState_hash a st = GameState_hash b st := by
+  simp only [bridge_GameState_eq, bridge_GameState_hash, RsAgree.game_state_eq, RsAgree.game_state_hash] at h ⊢
+  have : a.hash = b.hash := by simpa using h
+  rw [this]
+
+/-- **C08 for the code as it is now**: if the incremental hash of a play state equals the from-scratch hash, then
+after a step or pass computed by the regenerated `take_action` it still does — and the regenerated
+`Zobrist::from_piece_board` of the new board, side and step returns exactly the stored hash -/
+theorem C08_code_incremental_eq_scratch (s s' : GameState) (hplay : s.isPlay = true) (h : HashOk s) (a : Action)
+    (hna : a.isPlace = false) (ht : GameState_take_action s a = .ok s') :
+    ∃ pp', s'.phase = .play pp' ∧ s'.hash = zFromPieceBoard s'.board s'.p1Turn pp'.step ∧
+      ∀ x, Zobrist_from_piece_board s'.board s'.p1Turn pp'.step = .ok x → x = s'.hash := by
+  simp only [bridge_GameState_take_action] at ht
+  have h2 := (C08_value_of_ok (RsAgree.take_action_eq s a) ht).2
+  subst h2
+  obtain ⟨pp', hp, hh⟩ := C08_incremental_eq_scratch s hplay h [a] (by simpa using hna) 1
+  simp only [List.take_succ_cons, List.take_zero, List.foldl_cons, List.foldl_nil] at hp hh
+  refine ⟨pp', hp, hh, ?_⟩
+  intro x hx
+  simp only [bridge_Zobrist_from_piece_board] at hx
+  rw [(C08_value_of_ok (RsAgree.from_piece_board_eq _ _ _) hx).2, hh]
 
 end Arimaa
